@@ -164,7 +164,7 @@ type c17Scenario struct {
 	entry    string // validate | checkstatus
 	callers  int
 	cache    bool
-	discard  bool // HTTPFetcher.DiscardCacheError (with cache)
+	discard  bool   // HTTPFetcher.DiscardCacheError (with cache)
 	inject   int    // max injected panics / cancellations
 	fetcher  string // http | fake (caller-supplied fetcher that parks)
 	stCaller []bool // per caller: supplies the reference signing time (default: none)
